@@ -1486,11 +1486,15 @@ fn main() {
                 for r_ in &rs {
                     for (il, loss) in losses.iter().enumerate() {
                         for mode in 0..3usize {
+                            // quick: a covering half of a small grid; thorough: a seeded quarter of the full grid (~650 cases)
                             if !thorough && (r_ + il + mode) % 2 == 1 && !(big && mode == 0) {
                                 continue;
                             }
                             for whole in [false, true] {
                                 if whole && !thorough {
+                                    continue;
+                                }
+                                if thorough && r.below(4) != 0 {
                                     continue;
                                 }
                                 let d = if whole { trace.len() + 2 - adv[j] } else { d };
@@ -1930,6 +1934,7 @@ fn main() {
     let mut w = CaseWriter::new(&a.out, "Model.Subscribe", "check_case", "model_obs", 200);
     let mut distinct = Distinct::default();
     let mut env_slot: Option<Env> = None;
+    let mut rebuild_shrunk = false;
     let t0 = Instant::now();
     let budget = Duration::from_secs(if thorough { 1200 } else { 150 });
     let limit: usize = a.extra.get("limit").and_then(|v| v.parse().ok()).unwrap_or(usize::MAX);
@@ -2000,7 +2005,9 @@ fn main() {
             // shrink the schedule prefix while the same class keeps failing
             let base = c.clone();
             let cls = class.clone();
-            let sched = if (c.sched.len() <= 60 || (c.loss >= 3 && c.sched.len() <= 400)) && !class.starts_with("frames_skipped_after_lag") && !matches!(c.load, Load::EndRace(_)) {
+            // (the rebuild family's schedules are long and its violations shrink to the same witness: the first one is shrunk)
+            let rebuild_shrink = c.loss >= 3 && c.sched.len() <= 400 && !std::mem::replace(&mut rebuild_shrunk, true);
+            let sched = if (c.sched.len() <= 60 && c.loss < 3 || rebuild_shrink) && !class.starts_with("frames_skipped_after_lag") && !matches!(c.load, Load::EndRace(_)) {
                 shrink_vec(c.sched.clone(), |s| {
                     let mut cc = base.clone();
                     cc.sched = s.to_vec();
